@@ -529,7 +529,7 @@ def c08_n1(ctx):
         raise Anchor("C08-N1", "SegmentRequestForm constructions in the receiver")
 
 
-@rule("C08", "C08-N2", 3, "a NAK PDU carries at most max_nak_num(flag, segment size) requests, taken from the front of the queue, and its scope is the first start / last end of exactly those requests")
+@rule("C08", "C08-N2", 3, "a NAK PDU carries at most max_nak_num(flag, segment size) requests, taken from the front of the queue, and its scope spans exactly those requests: the smallest start and the largest end (the queue is not kept in offset order)")
 def c08_n2(ctx):
     f = ctx.one("C08-N2", "RecvTransaction::send_naks")
     aggs = list(agg_sites([f], "NegativeAcknowledgmentPDU"))
@@ -571,14 +571,42 @@ def c08_n2(ctx):
     eu2 = simp(ebu2.rvalue(s["rv"]))
     fu = _fields(eu2)
     reqs_var = expr_str(fu.get("segment_requests"))
-    for nm, pick, fld in (("start_of_scope", "first", "start_offset"), ("end_of_scope", "last", "end_offset")):
+    for nm, pick, fld, ext in (("start_of_scope", "first", "start_offset", "min"), ("end_of_scope", "last", "end_offset", "max")):
         key = "send_naks:%s" % nm
         v = fu.get(nm)
         alts = _value_alternatives(ctx, f, ebu2, v)
         picked = []
         other = []
+        positional = []
         for a in alts:
             at_ = expr_str(a)
+            # the smallest start / largest end over the requests of this PDU: min / max over a map of the list
+            ext_calls = [x for x in walk(a) if x[0] == "call" and (callee_name(x) or "").split("::")[-1] == ext and (callee_name(x) or "").find("Iterator") >= 0]
+            if ext_calls:
+                good_ext = False
+                for x in ext_calls:
+                    src = simp(x[3][0]) if x[3] else None
+                    if src is not None and src[0] == "call" and (callee_name(src) or "").split("::")[-1] == "map" and len(src[3]) == 2:
+                        it = simp(src[3][0])
+                        while it[0] == "call" and (callee_name(it) or "").split("::")[-1] in ("iter", "into_iter", "deref") and it[3]:
+                            it = simp(it[3][0])
+                        clo = [y for y in walk(src[3][1]) if y[0] == "agg" and y[1] == "closure"]
+                        body = ""
+                        if clo:
+                            c = ctx.prog.by_norm.get(clo[0][2])
+                            if c is not None:
+                                ebc = ExprBuilder(ctx.prog, c)
+                                body = ",".join(sstr(ebc._def_expr(d, 0, (0,))) for d in c.defs(0) if d[0] in ("assign", "call"))
+                        if expr_str(it) == reqs_var and body.endswith("." + fld):
+                            good_ext = True
+                if good_ext:
+                    picked.append(at_[:80])
+                else:
+                    other.append(at_[:80])
+                continue
+            if re.search(r"slice::(first|last)\(|VecDeque::(front|back)\(", at_):
+                positional.append(at_[:80])
+                continue
             mb = re.match(r"^(\w+)((?:\.\*)?\.\w+)$", at_) if a[0] == "place" else None
             if mb:
                 # a pattern binding: follow it to what it was bound to
@@ -604,8 +632,10 @@ def c08_n2(ctx):
             elif re.search(r"slice::(first|last)\(|\.(start|end)_offset", at_):
                 other.append(at_[:80])
             # anything else (constants, end of held data) is the default for an empty request list
-        if picked and not other:
-            yield ok("C08-N2", key, where, "%s().%s of the requests sent in this PDU" % (pick, fld))
+        if positional:
+            yield bad("C08-N2", key, where, "%s is taken from the %s request of the PDU (%s): the queue is not in offset order (the requests of a delayed check over the whole file follow those of an earlier gap), so a request can lie outside the announced scope" % (nm, pick, positional[0]))
+        elif picked and not other:
+            yield ok("C08-N2", key, where, "%s of %s over the requests sent in this PDU" % (ext, fld))
         else:
             yield bad("C08-N2", key, where, "%s is %s, not the %s request's %s of the requests sent in this PDU" % (nm, [expr_str(a)[:100] for a in alts], pick, fld))
 
